@@ -30,8 +30,7 @@ TS = 'openhtf/core/test_state.py'
 LOCK = 'self._running_lock'
 
 
-def r1_run(report, repo):
-  rule = 'C12-R1'
+def r1_run(report, repo, rule='C12-R1'):
   report.rule(rule, 'T-REGION/T-DOM: KillableThread.run: _thread_proc() inside '
               '`with self._running_lock`, dominated by the killed-flag test in '
               'the same region; _thread_exception / _thread_finished outside')
@@ -82,8 +81,7 @@ def r1_run(report, repo):
                '_thread_finished runs in the finally block')
 
 
-def r2_kill(report, repo):
-  rule = 'C12-R2'
+def r2_kill(report, repo, rule='C12-R2'):
   report.rule(rule, 'T-ORDER/T-DOM: kill(): _killed.set() first; async_raise '
               'only if is_alive() and the body is running; the probe is a '
               'non-blocking acquire that releases on success; async_raise '
